@@ -16,7 +16,7 @@ pub fn def() -> CheckDef {
         meta: CheckMeta {
             id: "C09",
             level: "exploration",
-            rule: "scenarios of 2-3 writer threads, each doing 1-2 read-modify-write increments of a counter key (plus a bulk value; in half of the scenarios the file is a fresh 4-page file, so the first commits have to grow it: resize takes the map lock exclusively; the other half is pre-sized and never resizes) with 1-2 reader threads; every thread holds at most one transaction. Schedules as in C04: all schedules with <= p preemptions by depth-first re-execution (p = 2 quick, 3 thorough, capped), then seeded random / PCT schedules. Oracles: (1) a flag set after tx(true) returns and cleared before commit is never found set (mutual exclusion); (2) the counter read inside each committed transaction is unique and the final counter equals the number of successful commits (no lost update); a reader never sees a counter below the number of commits that had returned before it began; (3) a reader never reports itself blocked on a lock while every other thread is parked outside jammdb (a reader blocked by an idle, uncommitted open writer); a committing writer waiting for open readers before it grows the file, and writers waiting for each other, are legitimate; (4) no state in which every live thread is blocked, every execution ends within the step bound, and no thread stays blocked when the controller lets everything run free. Non-trivial = schedule with >= 1 preemption in which a writer had to wait for the writer lock or a thread had to wait for the map lock during a resize. Distinct = hash of the choice sequence (per scenario).",
+            rule: "scenarios of 2-3 writer threads, each doing 1-2 read-modify-write increments of a counter key (plus a bulk value; in half of the scenarios the file is a fresh 4-page file, so the first commits have to grow it: resize takes the map lock exclusively; the other half is pre-sized and never resizes) with 1-2 reader threads; every thread holds at most one transaction. In a quarter of the scenarios (all with file growth) every lock acquisition inside jammdb is a scheduling point of its own, so a thread can be preempted between two short critical sections. Schedules as in C04: all schedules with <= p preemptions by depth-first re-execution (p = 2 quick, 3 thorough, capped), then seeded random / PCT schedules. Oracles: (1) a flag set after tx(true) returns and cleared before commit is never found set (mutual exclusion); (2) the counter read inside each committed transaction is unique and the final counter equals the number of successful commits (no lost update); a reader never sees a counter below the number of commits that had returned before it began; (3) a reader never reports itself blocked on a lock while every other thread is parked outside jammdb (a reader blocked by an idle, uncommitted open writer); a committing writer waiting for open readers before it grows the file, and writers waiting for each other, are legitimate; (4) no state in which every live thread is blocked, every execution ends within the step bound, and no thread stays blocked when the controller lets everything run free. Non-trivial = schedule with >= 1 preemption in which a writer had to wait for the writer lock or a thread had to wait for the map lock during a resize. Distinct = hash of the choice sequence (per scenario).",
             assumptions: &[
                 "liveness is checked as: no reachable all-blocked state, termination within a step bound under every explored schedule; fairness is not modelled",
                 "the controller explores a superset of the schedules std's RwLock (writer-preferring) allows, which is sound for these safety oracles",
@@ -155,7 +155,7 @@ pub fn run_once(sc: &Scenario, template: &Path, work: &Path, plan: &[usize], str
     let sh = Arc::new(Shared { in_write: AtomicBool::new(false), commits_done: AtomicUsize::new(0), preds: Mutex::new(vec![]), failures: Mutex::new(vec![]) });
     let writers = 2 + (sc.pattern as usize % 2);
     let threads = build(sc, &db, sh.clone());
-    let exec = execute(threads, plan, strategy, 8000);
+    let exec = execute_opts(threads, plan, strategy, 8000, sc.lock_yield);
     let mut failures = sh.failures.lock().unwrap().clone();
     // a reader blocked although nobody was inside jammdb: an idle open (uncommitted) writer blocks it.
     // (A committing writer that has to grow the file legitimately waits for open readers, and
@@ -209,7 +209,7 @@ fn shard(ctx: &ShardCtx, known: &Known) -> ShardOut {
     // pattern: bit 0 = third writer, /2%3 = bulk size
     // holds >= 8 marks a pre-sized (no growth) scenario
     let presized = ctx.shard % 2 == 1;
-    let sc = Scenario { readers: 1 + (ctx.shard / 4) % 2, commits: 1 + (ctx.shard / 8) % 2, pattern: ((ctx.shard / 2) % 6) as u8, holds: if presized { 9 } else { 1 }, grow: false };
+    let sc = Scenario { readers: 1 + (ctx.shard / 4) % 2, commits: 1 + (ctx.shard / 8) % 2, pattern: ((ctx.shard / 2) % 6) as u8, holds: if presized { 9 } else { 1 }, grow: false, lock_yield: ctx.shard % 4 == 0 };
     let template = ctx.db_path("c09.template.db");
     if let Err(f) = prepare_template(&template, presized) {
         out.inconclusive.push(f.line());
@@ -251,7 +251,8 @@ fn shard(ctx: &ShardCtx, known: &Known) -> ShardOut {
     out.exhaustive = Some(stats.complete);
     out.extra.insert("dfs".into(), serde_json::json!([{"scenario": {"writers": 2 + (sc.pattern % 2), "increments_each": sc.commits, "readers": sc.readers, "bulk": sc.pattern / 2 % 3, "file_growth": !presized}, "bound": bound, "executions": stats.executions, "complete": stats.complete, "diverged": stats.diverged, "longest_trace": stats.max_trace}]));
     if ok {
-        let n = if presized { ctx.tier.pick(2000, 60000) } else { ctx.tier.pick(400, 12000) };
+        // with a scheduling point at every lock the bounded search covers less of each trace: more random schedules there
+        let n = if sc.lock_yield { ctx.tier.pick(3000, 30000) } else if presized { ctx.tier.pick(2000, 60000) } else { ctx.tier.pick(400, 12000) };
         for i in 0..n {
             let seed = mix(ctx.shard_seed("c09-rand"), i as u64);
             let sid = if i % 2 == 0 { 1 } else { 2 };
